@@ -6,6 +6,7 @@
    (Debug impls call every field's getter) and the literals it places in typed positions. *)
 From Coq Require Import ZArith List Bool String.
 From DD Require Import Common Mir GenErr Layout FieldSetGen Emit EmitProofs.
+From DD Require Addr AddrProofs.
 Import ListNotations.
 Open Scope string_scope.
 Open Scope Z_scope.
@@ -48,21 +49,33 @@ Theorem C19_block_ref_historical :
   wf_output "Dev" d = true /\ failing_obligations "Dev" d = [].
 Proof. vm_compute. repeat split; reflexivity. Qed.
 
-(* D22: a literal of the emitted address arithmetic does not fit the type of its position.  The internal address type is
-   sized for the FINAL addresses (find_best_internal_address), but the accessors write every object's own address, block
-   offset and |stride| as literals of that type: (a) `u8; block Ba @10 { register Ra @-1 }` — final address 9, internal
-   type u8, `self.base_address + -1` (E0277 `u8: Neg`); (b) `i16 registers; block @-30000 { register @40000 }` — final
-   10000, internal type i16, literal 40000 out of range; (c) `u8; register repeat 1 x 1000` — the only instance is at 5,
-   the stride literal 1000 is out of range for u8; (d) `i8; readable register @-100 repeat 3 x 100` — read_all_registers
-   writes `-100 + 2 * 100`, whose constant product overflows i8.  Tag D22 = the type error (negative literal of an unsigned
-   type), D22L = the deny-by-default lints (rustc reaches them only when the crate has no other error). *)
+(* D22 (REDUCED by /repo's repair 6e3a361, which sizes the internal address type for every literal, index and product of the
+   address arithmetic): what is left is read_all_registers of the ROOT block, whose items `ADDR (+|-) IDX * |STRIDE|` are
+   typed in the REGISTER address type (the root block's text is pinned by a snapshot test): (c) `u8; readable register @5
+   repeat 1 x 1000` — the stride literal 1000 is out of range for u8; (d) `i8; readable register @-100 repeat 3 x 100` — the
+   constant product `2 * 100` overflows i8 (deny-by-default lint arithmetic_overflow, raised when code is generated).
+   Tag D22 = a type error (negative literal of an unsigned type; none left after the repair), D22L = the deny-by-default
+   lints.  The two accessor-side witnesses of the unrepaired generator — (a) `u8; block Ba @10 { register Ra @-1 }`
+   (`self.base_address + -1`: `u8: Neg`), (b) `i16; block @-30000 { register @40000 }` — now meet every obligation. *)
 Theorem C19_address_literal_refuted :
-  failing_obligations "Dev" (dev IU8 [OBlock None "Ba" 10 None [ex_reg "Ra" (-1) RW None [ex_field "fa" RW None]]]) = ["D22"] /\
-  failing_obligations "Dev" (dev II16 [OBlock None "Ba" (-30000) None [ex_reg "Ra" 40000 RW None [ex_field "fa" RW None]]]) = ["D22L"] /\
   failing_obligations "Dev" (dev IU8 [ex_reg "Ra" 5 RW (Some {| r_count := 1; r_stride := 1000 |}) [ex_field "fa" RW None]]) = ["D22L"] /\
   failing_obligations "Dev" (dev II8 [ex_reg "Ra" (-100) RW (Some {| r_count := 3; r_stride := 100 |}) [ex_field "fa" RW None]]) = ["D22L"] /\
+  failing_obligations "Dev" (dev IU8 [OBlock None "Ba" 10 None [ex_reg "Ra" (-1) RW None [ex_field "fa" RW None]]]) = [] /\
+  failing_obligations "Dev" (dev II16 [OBlock None "Ba" (-30000) None [ex_reg "Ra" 40000 RW None [ex_field "fa" RW None]]]) = [] /\
   failing_obligations "Dev" (dev IU8 [OBlock None "Ba" 10 None [ex_reg "Ra" 1 RW None [ex_field "fa" RW None]]]) = [].
 Proof. vm_compute. repeat split; reflexivity. Qed.
+
+(* For every accepted definition the ACCESSOR side of the obligation holds (Addr's theorem about the repaired internal
+   type): every address / offset literal, |stride|, last index and (last index) x |stride| of every lowered method lies in
+   the internal address type. *)
+Theorem C19_accessor_literals_fit : forall fx fl name d bls it,
+  Addr.lower fx fl name (d_objects d) = Ok bls -> Addr.internal_type d = Ok it ->
+  forall b m, In b bls -> In m (Addr.b_methods b) ->
+    in_range it (Addr.m_address m) = true /\
+    forall r, Addr.m_repeat m = Some r ->
+      in_range it (Z.abs (r_stride r)) = true /\ in_range it (Z.max (r_count r - 1) 0) = true /\
+      in_range it (Z.max (r_count r - 1) 0 * Z.abs (r_stride r)) = true.
+Proof. exact AddrProofs.internal_type_covers_method_literals. Qed.
 
 (* D12: two variants with the same number (accepted by enum_values_checked: see C15) — E0081. *)
 Theorem C19_duplicate_discriminant_refuted :
@@ -168,6 +181,7 @@ Print Assumptions C19_wo_field_refuted.
 Print Assumptions C19_negative_stride_historical.
 Print Assumptions C19_block_ref_historical.
 Print Assumptions C19_address_literal_refuted.
+Print Assumptions C19_accessor_literals_fit.
 Print Assumptions C19_duplicate_discriminant_refuted.
 Print Assumptions C19_negative_discriminant_refuted.
 Print Assumptions C19_signed_discriminant_refuted.
